@@ -50,6 +50,7 @@ type c03sSession struct {
 	w      *ChangeWaiter
 	cnt    uint64
 	last   string // previous view (for the non-trivial rule)
+	failed bool   // a request of this BLIP connection got the reconnect error: the client is expected to reconnect
 }
 
 func (s *c03sSession) close() {
@@ -205,7 +206,7 @@ func c03sRun(e *c03Env, rec *vRecorder, ops []c03sOp) ([]c03sOut, *c03Failure, b
 			s.close()
 		}
 	}()
-	unnotified := false // a user was deleted or a role purged: the deletion of a principal document is not notified
+	unnotified := false // a user was deleted or a role purged: before e7d0448 the deletion of a principal document was not notified
 	pickedUp := false
 	setFail := func(i int, mon, sig, detail string) {
 		if fail == nil {
@@ -216,6 +217,12 @@ func c03sRun(e *c03Env, rec *vRecorder, ops []c03sOp) ([]c03sOut, *c03Failure, b
 	checkView := func(i int, s *c03sSession, out c03sOut) {
 		chs, ros := tr.specUser(s.user)
 		if chs == nil {
+			// the user is gone: the request must have failed (reconnect error); a BLIP connection that already got that
+			// error and is used again answers from its old user object (refreshUser does not close it) -- not checked
+			if s.failed {
+				rec.hist["srequest_after_reconnect_error"]++
+				return
+			}
 			sig := "session-of-missing-user"
 			if unnotified {
 				sig = "session-stale-after-unnotified-delete"
@@ -279,6 +286,7 @@ func c03sRun(e *c03Env, rec *vRecorder, ops []c03sOp) ([]c03sOut, *c03Failure, b
 				checkView(i, s, out)
 			}
 			if err == nil && out.Kind == "err" {
+				s.failed = true
 				if chs, _ := tr.specUser(s.user); chs != nil {
 					setFail(i, "operation_succeeds", "session-reload-failed", fmt.Sprintf("op %d: the reload of existing user %d failed", i, s.user))
 				}
@@ -520,7 +528,7 @@ func c03sCorpus() map[string][]c03sOp {
 		// a role that does not exist yet when it is assigned, created later; a role deleted (soft) and re-created
 		res[k+"role_created_and_deleted_while_open"] = []c03sOp{mkU(0), roles(0, 0), open(0, 0, feed), req(0),
 			mkR(0), req(0), rchans(0, 2), req(0), b(c03Op{Kind: "delrole", Who: 0}), req(0), mkR(0), req(0), rchans(0, 3), req(0)}
-		// the DELETION of a principal document is not notified (changeListener.ProcessFeedEvent): a purged role
+		// the DELETION of a principal document notifies its key too (e7d0448): a purged role
 		res[k+"role_purged_while_open"] = []c03sOp{mkU(0), mkR(0), rchans(0, 2), roles(0, 0), open(0, 0, feed), req(0),
 			b(c03Op{Kind: "delrole", Who: 0, Purge: true}), req(0), b(c03Op{Kind: "loaduser", Who: 0}), req(0)}
 		// ... and a deleted user
@@ -564,7 +572,7 @@ func c03sStreams(t *testing.T, rec *vRecorder, rnd *vRand) {
 	for n := range corpus {
 		names = append(names, n)
 	}
-	// the histories with an un-notified deletion (a known deviation) run last
+	// the histories with the deletion of a principal document run last
 	last := func(n string) bool { return strings.Contains(n, "purged") || strings.Contains(n, "deleted_while") }
 	sort.Slice(names, func(i, j int) bool {
 		if last(names[i]) != last(names[j]) {
